@@ -253,6 +253,20 @@ class Driver:
                         break
                     except Exception:
                         continue
+            if wide == "none":
+                # several wide arguments may each be rejected: replace them all
+                trial = list(args)
+                kinds = []
+                for i, (mp, a) in enumerate(zip(ps, args[off:])):
+                    if mp["type"]["k"] == "int" and isinstance(a, int) and not (-2 ** 31 <= a < 2 ** 31):
+                        trial[off + i] = 1
+                        kinds.append(tkind(mp["type"]))
+                if kinds:
+                    try:
+                        f(*trial)
+                        wide = sorted(set(kinds))[0]
+                    except Exception:
+                        pass
             self.trace()
             self.bad(f"wrapper-raised:{type(ex).__name__}:wide-arg={wide}", fn=x["qname"], msg=str(ex)[:100])
             return True
@@ -338,16 +352,17 @@ class Driver:
         """entity id of the body C++ runs for base method x on an object of dynamic class dyn"""
         if not x.get("virtual"):
             return x["eid"]
-        # methods that (transitively) override x
-        over = {x["qname"]: x}
-        changed = True
-        allm = [m for c in self.m["classes"] for m in c["methods"]]
-        while changed:
-            changed = False
-            for m in allm:
-                if m.get("overrides") in over and m["qname"] not in over:
-                    over[m["qname"]] = m
-                    changed = True
+        # the family of x: every method whose chain of `overrides` links ends at the same root declaration as x's
+        allm = {m["qname"]: m for c in self.m["classes"] for m in c["methods"] if m["kind"] == "method"}
+
+        def root(m):
+            seen = set()
+            while m.get("overrides") in allm and m["qname"] not in seen:
+                seen.add(m["qname"])
+                m = allm[m["overrides"]]
+            return m["qname"]
+        rx = root(x)
+        over = {q: m for q, m in allm.items() if m.get("virtual") and root(m) == rx}
         # the final overrider: the overrider declared in the most derived class among dyn and its ancestors
         # (libgen never builds non-virtual diamonds, so the base subobject is unique)
         cands = []
